@@ -126,7 +126,7 @@ def make_model_harness(cfg, tw):
         eng = core.engine()
         symmath.LEVEL = "full"
         del symnp.WRITE_LOG[:]
-        feats = sym_vec(eng, n + nq, "f", domain)
+        feats = sym_vec(eng, n + 2 * nq, "f", domain)
         if cfg.get("zeros"):
             eng.assume(feats[0].e == 0)
 
@@ -135,6 +135,9 @@ def make_model_harness(cfg, tw):
             Y = symnp.SArr.from_list(list(labels), dtype="i", tag="caller:Y" if tagged else None)
             Q = symnp.SArr.from_list([[feats[n + i]] for i in range(nq)], dtype="f", tag="caller:Q" if tagged else None)
             return X, Y, Q
+
+        def second_batch():
+            return symnp.SArr.from_list([[feats[n + nq + i]] for i in range(nq)], dtype="f")
 
         def run(tagged):
             X, Y, Q = data(tagged)
@@ -156,8 +159,25 @@ def make_model_harness(cfg, tw):
                 p = o.predict(Q)
             return o, p
         o1, p1 = run(True)
+        # history: the model that already predicted one batch predicts a second, different one right away (nothing
+        # else is allocated in between); later a fresh model predicts that second batch first
+        q2_used = o1.predict(second_batch()) if model != "semi" else None
         o2, p2 = run(False)
-        return dict(feats=feats, o1=o1, p1=p1, o2=o2, p2=p2)
+        out = dict(feats=feats, o1=o1, p1=p1, o2=o2, p2=p2)
+        if model != "semi":
+            out["q2_used"] = q2_used
+            X, Y, Q = data(False)
+            if model == "sup":
+                o3 = sup.SupervisedOPF(distance=metric)
+                o3.fit(X, Y)
+            elif model == "knn":
+                o3 = knn.KNNSupervisedOPF(max_k=1, distance=metric)
+                o3.fit(X, Y, X, Y)
+            else:
+                o3 = uns.UnsupervisedOPF(min_k=1, max_k=1, distance=metric)
+                o3.fit(X, Y)
+            out["q2_fresh"] = o3.predict(second_batch())
+        return out
     return harness
 
 
@@ -186,6 +206,11 @@ def model_post(eng, cfg, out):
     flat = lambda p: list(p[0]) + list(p[1]) if isinstance(p, tuple) else list(p)
     for a, b in zip(flat(out["p1"]), flat(out["p2"])):
         same.append(core.sym_eq(a, b))
+    if "q2_used" in out:
+        for a, b in zip(flat(out["q2_used"]), flat(out["q2_fresh"])):
+            same_h = core.sym_eq(a, b)
+            eng.check("prediction-independent-of-earlier-predict-calls",
+                      core.to_bool(same_h) if not isinstance(same_h, bool) else z3.BoolVal(same_h), base_info)
     eng.check("fitting-twice-on-equal-data-is-identical",
               z3.And([core.to_bool(s) if not isinstance(s, bool) else z3.BoolVal(s) for s in same]), base_info)
 
